@@ -1,3 +1,263 @@
 import Driver.Common
--- stub driver for C03 (replaced when the property's model is built)
-def main (args : List String) : IO UInt32 := Driver.main' (fun _ => "bad-op") (fun _ _ => "fail bad-op") args
+import GilVerif.Model.C03
+open Driver GilVerif.Geom GilVerif.Model.C03 GilVerif.Gen.C03
+
+/-- source view of a kind: (geometry, iterator kind, virtual?) -/
+def srcView (k : String) (W H PAD OFF : Int) : Option (View × Kind × Bool) :=
+  let bytes (p : Int) : Option (View × Kind × Bool) :=
+    some ({ base := 0, xs := p, ys := W * p + PAD, w := W, h := H }, ⟨false, false, 0, false⟩, false)
+  let bits (b : Int) : Option (View × Kind × Bool) :=
+    some ({ base := OFF, xs := b, ys := W * b + PAD, w := W, h := H }, ⟨true, false, b, false⟩, false)
+  match k with
+  | "g8" => bytes 1 | "rgb8" => bytes 3 | "rgba8" => bytes 4 | "rgb16" => bytes 6 | "rgb32f" => bytes 12 | "p565" => bytes 2
+  | "pl8" => bytes 1 | "pl16" => bytes 2
+  | "b1" => bits 1 | "b2" => bits 2 | "b3" => bits 3 | "b4" => bits 4 | "b6" => bits 6 | "b12" => bits 12
+  | "v" => some ({ base := OFF * 4096 + PAD, xs := 1, ys := 4096, w := W, h := H }, ⟨false, false, 0, true⟩, true)
+  | _ => none
+
+def parseXf (tok : String) : Option Xform :=
+  let c := (tok.take 1).toString
+  let args := ints (((tok.drop 1).toString.splitOn ",").filter (· ≠ ""))
+  match c, args with
+  | "U", some [] => some .flipUD | "L", some [] => some .flipLR | "T", some [] => some .transpose
+  | "R", some [] => some .rot90cw | "C", some [] => some .rot90ccw | "I", some [] => some .rot180
+  | "S", some [sx, sy] => some (.subsample sx sy)
+  | "B", some [x0, y0, w, h] => some (.sub x0 y0 w h)
+  | _, _ => none
+
+def parseXfs (s : String) : Option (List Xform) :=
+  if s = "-" then some [] else (s.splitOn "/").mapM parseXf
+
+/-- does a transformation turn the x-iterator into a step iterator?  (flipUD and subimage keep the type) -/
+def xfSteps : Xform → Bool
+  | .flipUD => false | .sub _ _ _ _ => false | _ => true
+
+/-- view + iterator kind described by the six view words of an op line -/
+def parseView (ws : List String) : Option (View × Kind × Bool) :=
+  match ws with
+  | [k, W, H, PAD, OFF, xf] =>
+    match ints [W, H, PAD, OFF], parseXfs xf with
+    | some [W, H, PAD, OFF], some ts =>
+      (srcView k W H PAD OFF).map fun (v, kd, virt) =>
+        (applyAll ts v, { kd with xstep := ts.any xfSteps }, virt)
+    | _, _ => none
+  | _ => none
+
+def b2i (b : Bool) : Int := if b then 1 else 0
+def range' (lo hi : Int) : List Int := (List.range (hi - lo + 1).toNat).map (fun i => lo + Int.ofNat i)
+
+def pos3 (it : It) : List Int := [it.x, it.y, it.p.pos]
+
+def parseMoves : List String → Option (List Move)
+  | [] => some []
+  | "p" :: a :: b :: rest => do let ms ← parseMoves rest; let a ← a.toInt?; let b ← b.toInt?; pure (.add a b :: ms)
+  | "m" :: a :: b :: rest => do let ms ← parseMoves rest; let a ← a.toInt?; let b ← b.toInt?; pure (.subm a b :: ms)
+  | "x" :: a :: rest => do let ms ← parseMoves rest; let a ← a.toInt?; pure (.xadd a :: ms)
+  | "y" :: a :: rest => do let ms ← parseMoves rest; let a ← a.toInt?; pure (.yadd a :: ms)
+  | "ix" :: rest => (parseMoves rest).map (.xinc :: ·)
+  | "dx" :: rest => (parseMoves rest).map (.xdec :: ·)
+  | "iy" :: rest => (parseMoves rest).map (.yinc :: ·)
+  | "dy" :: rest => (parseMoves rest).map (.ydec :: ·)
+  | _ => none
+
+def join (groups : List (List Int)) : String := " | ".intercalate (groups.map showInts)
+
+def modelNav (v : View) (k : Kind) (virt : Bool) (cx cy : Int) : String :=
+  let pix := (range' 0 (v.h - 1)).flatMap fun y => (range' 0 (v.w - 1)).flatMap fun x =>
+    [pathCall k v x y, pathRow k v x y, pathCol k v x y, pathBegin k v x y, pathAt k v x y, pathRbegin k v x y,
+     pathCall k v x y, pathCached k v cx cy x y, pathCall k v x y, pathBegin k v x y]
+  let rows := if v.w > 0 then (range' 0 (v.h - 2)).flatMap fun y =>
+      [((View.loc v).move k v.w y).pos, ((View.loc v).move k 0 (y + 1)).pos] else []
+  join [[v.w, v.h, if virt then 0 else View.is1d v], pix, rows]
+
+def modelRa (v : View) (k : Kind) (i nlo nhi m : Int) : String :=
+  let b := View.begin v
+  let e := View.endIt k v
+  let it0 := b.advance k i
+  let head := [View.size v, It.sub e b, b2i (decide (b.x = e.x ∧ b.y = e.y ∧ b.p.pos = e.p.pos))]
+  let t1 := it0.inc k
+  let t2 := it0.dec k
+  let g0 := pos3 it0 ++ pos3 t1 ++ pos3 (t1.dec k) ++ pos3 t2 ++ pos3 (t2.inc k)
+  let rows := (range' nlo nhi).map fun n =>
+    let J := it0.advance k n
+    pos3 J ++ [It.sub J it0, b2i (It.lt it0 J), b2i (It.lt J it0), b2i (decide (it0.x = J.x ∧ it0.y = J.y ∧ it0.p.pos = J.p.pos))]
+      ++ pos3 (J.advance k m) ++ pos3 (it0.advance k (n + m))
+  join (head :: g0 :: rows)
+
+/-- x / y iterator laws: `step` is the iterator's memory-unit step; `raw` = the iterator is not a
+    step iterator (pointer / planar / bit iterator: ++ and the comparisons are the base type's own) -/
+def modelSt (k : Kind) (xs start step : Int) (isY : Bool) (i nlo nhi m : Int) : String :=
+  let adv (p n : Int) : Int := if isY then yAdv k step p n else xAdv k step p n
+  let inc (p : Int) : Int := if isY then yAdv k step p 1 else xInc k step p
+  let dec (p : Int) : Int := if isY then yAdv k step p (-1) else xDec k step p
+  let it0 := adv start i
+  let rows := (range' nlo nhi).map fun n =>
+    let J := adv it0 n
+    [J, stepSub k step J it0] ++ itCmp k isY xs step it0 J ++ [b2i (it0 == J), adv J m, adv it0 (n + m)]
+  join ([it0, inc it0, dec (inc it0)] :: rows)
+
+def modelMv (v : View) (k : Kind) (x0 y0 : Int) (ms : List Move) : String :=
+  let l0 := (View.loc v).move k x0 y0
+  let l := runMoves k l0 ms
+  let s := sumMoves ms
+  let X := x0 + s.1
+  let Y := y0 + s.2
+  let direct := ((View.loc v).move k X Y).pos
+  showInts [l.pos, l.pos, direct, direct, X, Y]
+
+def bitKind (b : Int) : Kind := ⟨true, false, b, false⟩
+
+def model (line : String) : String :=
+  match words line with
+  | "nav" :: rest =>
+    match parseView (rest.take 6), ints (rest.drop 6) with
+    | some (v, k, virt), some [cx, cy] => modelNav v k virt cx cy
+    | _, _ => "bad-op"
+  | "ra" :: rest =>
+    match parseView (rest.take 6), ints (rest.drop 6) with
+    | some (v, k, _), some [i, nlo, nhi, m] => modelRa v k i nlo nhi m
+    | _, _ => "bad-op"
+  | "st" :: rest =>
+    match parseView (rest.take 6), ints (rest.drop 6) with
+    | some (v, k, _), some [axis, c, i, nlo, nhi, m] =>
+      if axis = 0 then modelSt k v.xs ((View.loc v).move k 0 c).pos v.xs false i nlo nhi m
+      else modelSt k v.xs ((View.loc v).move k c 0).pos v.ys true i nlo nhi m
+    | _, _ => "bad-op"
+  | "mv" :: rest =>
+    match parseView (rest.take 6), ints ((rest.drop 6).take 2), parseMoves (rest.drop 8) with
+    | some (v, k, _), some [x0, y0], some ms => modelMv v k x0 y0 ms
+    | _, _, _ => "bad-op"
+  | ["bit", b, off, n] =>
+    match ints [b, off, n] with
+    | some [b, off, n] =>
+      let k := bitKind b
+      let p1 := memAdvance k off n
+      showInts [p1, memDistance k off p1, memAdvance k p1 (-n)]
+    | _ => "bad-op"
+  | ["bitit", b, off, n] =>
+    match ints [b, off, n] with
+    | some [b, off, n] =>
+      let k := bitKind b
+      let J := memAdvance k off (bitit_advance_bits n b)
+      let sub (a c : Int) : Int := -(bitit_distance (memDistance k a c) b)       -- a - c = -(a.distance_to(c))
+      showInts [J, sub J off, b2i (decide (0 > sub off J)), b2i (decide (0 > sub J off)), memAdvance k J (bitit_advance_bits (-n) b)]
+    | _ => "bad-op"
+  | _ => "bad-op"
+
+/-! ### judge: the Spec on the implementation's observation -/
+
+def splitGroups (ws : List String) : List (List String) :=
+  let rec go (acc : List String) (rest : List String) : List (List String) :=
+    match rest with
+    | [] => [acc.reverse]
+    | "|" :: r => acc.reverse :: go [] r
+    | x :: r => go (x :: acc) r
+  go [] ws
+
+def chunks (n : Nat) : List Int → List (List Int)
+  | [] => []
+  | xs => if n = 0 then [] else
+    let rec go (fuel : Nat) (xs : List Int) : List (List Int) :=
+      match fuel with
+      | 0 => []
+      | fuel + 1 => if xs.isEmpty then [] else xs.take n :: go fuel (xs.drop n)
+    go (xs.length + 1) xs
+
+def fail (s : String) : String := "fail " ++ s
+
+def firstSome {α} (xs : List α) (f : α → Option String) : Option String :=
+  xs.foldl (fun acc x => match acc with | some e => some e | none => f x) none
+
+def judgeNav (obs : String) : String :=
+  match (splitGroups (words obs)).map ints with
+  | [some [w, h, t1d], some pix, some rows] =>
+    if w < 0 ∨ h < 0 then fail "shape" else
+    if pix.length ≠ (10 * w * h).toNat then fail "shape: 10 paths per pixel" else
+    match firstSome (chunks 10 pix) (fun c => if allEq c then none else some "paths-agree: all navigation paths reach the same pixel") with
+    | some e => fail e
+    | none =>
+      if t1d = 1 ∧ (chunks 2 rows).any (fun c => !allEq c) then
+        fail "is_1d_traversable true only when row_end(y) == row_begin(y+1)"
+      else "ok"
+  | _ => fail ("not-a-value:" ++ obs.take 40)
+
+/-- laws are demanded for positions inside [begin, end] (everything else is outside the
+    iterators' contract); `i` is the start index, `size` = w*h -/
+def judgeRa (w : Int) (i m : Int) (nlo : Int) (obs : String) : String :=
+  match (splitGroups (words obs)).map ints with
+  | some [size, eb, beq] :: some g0 :: rows =>
+    if eb ≠ size then fail "end()-begin() == w*h" else
+    if (size = 0) ≠ (beq = 1) then fail "empty view: begin() == end() iff size() == 0" else
+    let inC (j : Int) : Bool := 0 ≤ j ∧ j ≤ size ∧ (w > 0 ∨ j = 0)
+    if !inC i then "ok" else
+    match g0 with
+    | [x0, y0, a0, _, _, _, xi, yi, ai, _, _, _, xd, yd, ad] =>
+      if i < size ∧ [xi, yi, ai] ≠ [x0, y0, a0] then fail "--(++it) == it" else
+      if i > 0 ∧ [xd, yd, ad] ≠ [x0, y0, a0] then fail "++(--it) == it" else
+      let idx := (List.range rows.length).map (fun k => nlo + Int.ofNat k)
+      match firstSome (idx.zip rows) (fun (n, r) =>
+        match r with
+        | some [_, _, _, dist, lt, gt, eq, x1, y1, a1, x2, y2, a2] =>
+          if !inC (i + n) then none else
+          if (eq = 1) ≠ (n = 0) then some "it == it+n iff n == 0" else
+          raSpec n dist lt gt (if inC (i + n + m) then [x1, y1, a1] else []) (if inC (i + n + m) then [x2, y2, a2] else [])
+        | _ => some "shape") with
+      | some e => fail e
+      | none => "ok"
+    | _ => fail "shape"
+  | _ => fail ("not-a-value:" ++ obs.take 40)
+
+def judgeSt (len i m nlo : Int) (obs : String) : String :=
+  match (splitGroups (words obs)).map ints with
+  | some [a0, _, aid] :: rows =>
+    let inC (j : Int) : Bool := 0 ≤ j ∧ j ≤ len
+    if !inC i then "ok" else
+    if i < len ∧ aid ≠ a0 then fail "--(++it) == it" else
+    let idx := (List.range rows.length).map (fun k => nlo + Int.ofNat k)
+    match firstSome (idx.zip rows) (fun (n, r) =>
+      match r with
+      | some [_, dist, lt, gt, le, ge, eq, a1, a2] =>
+        if !inC (i + n) then none else
+        if (eq = 1) ≠ (n = 0) then some "it == it+n iff n == 0" else
+        if (le = 1) ≠ (n ≥ 0) ∨ (ge = 1) ≠ (n ≤ 0) then some "order: it<=jt iff jt-it>=0" else
+        raSpec n dist lt gt (if inC (i + n + m) then [a1] else []) (if inC (i + n + m) then [a2] else [])
+      | _ => some "shape") with
+    | some e => fail e
+    | none => "ok"
+  | _ => fail ("not-a-value:" ++ obs.take 40)
+
+def judge (op obs : String) : String :=
+  match words op with
+  | "nav" :: _ => judgeNav obs
+  | "ra" :: rest =>
+    match parseView (rest.take 6), ints (rest.drop 6) with
+    | some (v, _, _), some [i, nlo, _, m] => judgeRa v.w i m nlo obs
+    | _, _ => fail "bad-op"
+  | "st" :: rest =>
+    match parseView (rest.take 6), ints (rest.drop 6) with
+    | some (v, _, _), some [axis, _, i, nlo, _, m] => judgeSt (if axis = 0 then v.w else v.h) i m nlo obs
+    | _, _ => fail "bad-op"
+  | "mv" :: _ =>
+    match ints (words obs) with
+    | some [lx, ly, d1, d2, _, _] =>
+      if lx ≠ d1 ∨ ly ≠ d1 ∨ d2 ≠ d1 then fail "locator moved by a sequence of offsets == xy_at(sum of offsets)" else "ok"
+    | _ => fail ("not-a-value:" ++ obs.take 40)
+  | ["bit", _, off, n] =>
+    match ints [off, n], ints (words obs) with
+    | some [off, n], some [p1, d, p2] =>
+      if d ≠ n then fail "bit iterator: distance(it, it advanced by n) == n"
+      else if p1 ≠ off + n then fail "bit iterator: advance by n moves n bits"
+      else if p2 ≠ off then fail "bit iterator: advance n then -n is the identity"
+      else "ok"
+    | _, _ => fail ("not-a-value:" ++ obs.take 40)
+  | ["bitit", _, off, n] =>
+    match ints [off, n], ints (words obs) with
+    | some [off, n], some [_, d, lt, gt, back] =>
+      if d ≠ n then fail "bit iterator: (it+n)-it == n"
+      else if (lt = 1) ≠ (n > 0) ∨ (gt = 1) ≠ (n < 0) then fail "bit iterator: it<jt iff jt-it>0"
+      else if back ≠ off then fail "bit iterator: (it+n)+(-n) == it"
+      else "ok"
+    | _, _ => fail ("not-a-value:" ++ obs.take 40)
+  | _ => fail "bad-op"
+
+def main (args : List String) : IO UInt32 := Driver.main' model judge args
